@@ -108,6 +108,27 @@ def promote_completed_ckpt(raw):
     return raw
 
 
+def bad_value(obj, path="$"):
+    """First value TLC's JSON reader cannot take (non-integer number, |int| >= 2^31, null)."""
+    if isinstance(obj, bool) or isinstance(obj, str):
+        return None
+    if isinstance(obj, int):
+        return None if abs(obj) < 2 ** 31 else f"{path}={obj}"
+    if isinstance(obj, dict):
+        for k, v in obj.items():
+            r = bad_value(v, f"{path}.{k}")
+            if r:
+                return r
+        return None
+    if isinstance(obj, (list, tuple)):
+        for i, v in enumerate(obj):
+            r = bad_value(v, f"{path}[{i}]")
+            if r:
+                return r
+        return None
+    return f"{path}={obj!r}"
+
+
 def validate_standard(histories, scratch: Path, tag="std"):
     """Pack the histories, run TLC per nlive. Returns (records, stats).
 
@@ -117,6 +138,12 @@ def validate_standard(histories, scratch: Path, tag="std"):
     for h in histories:
         raw = promote_completed_ckpt(load_events([f for f in h["events"] if os.path.exists(f)]))
         evs, info = pack_standard(raw)
+        bad = bad_value(evs)
+        if bad:
+            # a trace that cannot be represented is a machinery problem of that history only
+            print(f"MODEL-MISMATCH trace of history {len(packed)} not representable for TLC ({bad}); skipped",
+                  flush=True)
+            evs = [e for e in evs if not bad_value(e)]
         packed.append(evs)
     groups = {}
     for i, h in enumerate(histories):
